@@ -63,7 +63,7 @@ def prepare_native(repo=None):
     return dst
 
 
-def run_native(test, scenarios, repo=None, timeout=900):
+def run_native(test, scenarios, repo=None, timeout=1500, release=False):
     """Run scenario dicts through tests/verif_<test>.rs of the scratch copy. Returns list of observations."""
     dst = prepare_native(repo)
     nd = _native_dir(repo or os.environ.get("VERIF_REPO", "/repo"))
@@ -76,7 +76,7 @@ def run_native(test, scenarios, repo=None, timeout=900):
         os.remove(outp)
     env = dict(os.environ, CARGO_TARGET_DIR=os.path.join(nd, "target"), VERIF_SCENARIOS=inp, VERIF_OBS=outp, CARGO_NET_OFFLINE="true")
     feats = ["--features", "dir"] if test == "dir_witness" else []
-    p = subprocess.run(["cargo", "test", "--offline", "--quiet"] + feats + ["--test", "verif_" + test, "--", "--nocapture"], cwd=dst, env=env,
+    p = subprocess.run(["cargo", "test", "--offline", "--quiet"] + (["--release"] if release else []) + feats + ["--test", "verif_" + test, "--", "--nocapture"], cwd=dst, env=env,
                        stdout=subprocess.PIPE, stderr=subprocess.STDOUT, text=True, timeout=timeout)
     if not os.path.exists(outp):
         raise RuntimeError("native run failed: " + p.stdout[-800:])
@@ -219,7 +219,7 @@ FAMILIES = {
 
 # ---------------------------------------------------------------- streaming_body witness (native/stream_witness.rs)
 def stream_line(sc):
-    return "|".join([sc["id"], str(sc["chunk"]), hexs(sc["ae"]) if sc.get("ae") is not None else "-", str(sc.get("level", 6)), sc.get("method", "GET"), ",".join(sc["ops"])])
+    return "|".join([sc["id"], str(sc["chunk"]), hexs(sc["ae"]) if sc.get("ae") is not None else "-", "+".join(str(x) for x in sc["level_seq"]) if sc.get("level_seq") else str(sc.get("level", 6)), sc.get("method", "GET"), ",".join(sc["ops"])])
 
 
 def parse_stream_obs(line):
@@ -372,7 +372,7 @@ def py_should_gzip(value):
 
 
 def fam_accept_encoding():
-    weights = ["", ";q=0", ";q=1", ";q=0.5", ";q=0.001", ";q=0.25", "; q=0.5", " ;q=0", " ; q=0.75", ";q=1.000", ";q=0."]
+    weights = ["", ";q=0", ";q=1", ";q=0.5", ";q=0.001", ";q=0.25", "; q=0.5", " ;q=0", " ; q=0.75", ";q=1.000", ";q=0.", ";q=0.999", ";q=0.256", ";q=0.30"]
     codings = ["gzip", "identity", "*", "br"]
     els = [c + w for c in codings for w in weights]
     vals = [None, "", " ", ","]
@@ -396,7 +396,11 @@ def fam_accept_encoding():
 def _payloads():
     import random
     rnd = random.Random(7)
-    return {"empty": b"", "tiny": b"a", "text": b"hello, gzip world\n" * 3, "random": bytes(rnd.randrange(256) for _ in range(300)), "zeros": b"\0" * 2000}
+    d = {"empty": b"", "tiny": b"a", "text": b"hello, gzip world\n" * 3, "random": bytes(rnd.randrange(256) for _ in range(300)), "zeros": b"\0" * 2000}
+    if os.environ.get("VERIF_TIER") == "thorough":
+        d["random70k"] = bytes(rnd.randrange(256) for _ in range(70000))     # crosses the 32 KiB deflate window and the 64 KiB chunk size
+        d["mixed"] = (b"abcabcabc" * 500 + bytes(rnd.randrange(256) for _ in range(500))) * 3
+    return d
 
 
 def fam_gzip():
@@ -412,12 +416,25 @@ def fam_gzip():
             (name + ":two-writes-two-flushes", ["L" + hx(p[:half]), "F", "D", "L" + hx(p[half:]), "F", "D", "X", "D"]),
             (name + ":flush-first", ["F", "D", "L" + hx(p), "F", "F", "D", "X", "D"]),
             (name + ":partial-writes", ["W" + hx(p), "W" + hx(p[1:]), "F", "D", "X", "D"]),
+            (name + ":empty-write-before-flush", ["L" + hx(p), "W", "F", "D", "W", "L" + hx(p[:half]), "W", "F", "D", "X", "D"]),
+            (name + ":double-flush-reader-behind", ["L" + hx(p[:half]), "F", "L" + hx(p[half:]), "F", "D", "F", "F", "D", "X", "D"]),
             (name + ":poll-interleaved", ["P", "L" + hx(p[:half]), "P", "F", "P", "L" + hx(p[half:]), "P", "X", "D"]),
         ]
     out, k = [], 0
+    # a large, incompressible buffer handed over in single `write` calls (short counts) and flushed at once: the case
+    # that leaves flate2's staging buffer full (defect D13); in every tier
+    import random
+    rnd11 = random.Random(11)
+    big = bytes(rnd11.randrange(256) for _ in range(70000))
+    for cs, level in ((4096, 6), (4096, 1), (1, 1), (65536, 9)):
+        for name, ops in (("big:short-write-flush", ["W" + hx(big), "F", "D", "X", "D"]),
+                          ("big:two-short-writes-flush", ["W" + hx(big), "W" + hx(big[1:]), "F", "D", "X", "D"]),
+                          ("big:write_all-flush", ["L" + hx(big), "F", "D", "X", "D"])):
+            k += 1
+            out.append({"id": "gz%d" % k, "kind": "gzip", "name": name, "chunk": cs, "ae": "gzip", "level": level, "method": "GET", "ops": ops})
     for cs in (1, 2, 3, 7, 64, 4096, 65536):
         for level in range(1, 10):
-            if cs in (2, 3, 64, 65536) and level not in (1, 6, 9):
+            if cs in (2, 3, 64, 65536) and level not in (1, 6, 9) and os.environ.get("VERIF_TIER") != "thorough":
                 continue
             for name, ops in hist:
                 k += 1
@@ -463,7 +480,7 @@ def oracle_gzip(pid, sc, ob):
             if t in "NE":
                 term = t
             if t == "L":
-                return "body did not end within 20000 frames"
+                return "body did not end within 400000 frames"
             if not dropped and flushed is not None:
                 d = zlib.decompressobj(31)
                 try:
@@ -501,6 +518,13 @@ def fam_build():
             out.append(dict(base, id="bd%d" % k, method="GET"))
             out.append(dict(base, id="bd%d:h" % k, method="HEAD"))
             out.append(dict(base, id="bd%d:p" % k, method="POST"))
+    # the builder methods may be called several times and in any order: only the last level counts
+    for ae in ("gzip", "identity", None):
+        for seq in ((0, 6), (6, 0), (0, 0, 9), (9, 1), (0, 1, 0)):
+            k += 1
+            base = {"kind": "build", "chunk": 3, "ae": ae, "level": seq[-1], "level_seq": list(seq), "ops": ["G", "L68656c6c6f20776f726c64", "F", "X", "P", "P", "P", "P", "P", "P", "P", "P"]}
+            out.append(dict(base, id="bd%d" % k, method="GET"))
+            out.append(dict(base, id="bd%d:h" % k, method="HEAD"))
     return out
 
 
@@ -570,8 +594,9 @@ def file_line(sc):
 
 def fam_file():
     out, k = [], 0
-    for S in (0, 1, 65535, 65536, 65537, 131072, 200001):
-        pts = sorted(set(x for x in (0, 1, 65535, 65536, 65537, 131071, 131072, 131073, S - 1, S) if 0 <= x <= S))
+    deep = os.environ.get("VERIF_TIER") == "thorough"
+    for S in (0, 1, 65535, 65536, 65537, 131072, 200001) + ((2, 65534, 131071, 131073, 196608, 262145) if deep else ()):
+        pts = sorted(set(x for x in (0, 1, 65535, 65536, 65537, 131071, 131072, 131073, S - 1, S) + ((2, 65534, 196607, 196608, 196609, S // 2) if deep else ()) if 0 <= x <= S))
         for a in pts:
             for b in pts:
                 if a <= b:
@@ -684,7 +709,7 @@ def fam_stream_ops(maxlen=5, chunks=(1, 2, 3)):
     out = []
     k = 0
     for cs in chunks:
-        alphabet = ["W61", "W6162", "L" + "63" * cs, "F", "P", "Q", "A", "X", "R"]
+        alphabet = ["W61", "W6162", "W", "L" + "63" * cs, "F", "P", "Q", "A", "X", "R"]
         for n in range(1, maxlen + 1):
             for seq in itertools.product(alphabet, repeat=n):
                 if "R" not in seq and "A" not in seq and n == maxlen and seq[-1] != "P":
@@ -1120,6 +1145,15 @@ def fam_glue():
                     base = {"headers": hs, "len": L, "etag": et, "lm": "%d.250000000" % LM, "entity_headers": eh, "scripts": [], "extra_polls": 1}
                     out.append(dict(base, id="gl%d" % k, method="GET"))
                     out.append(dict(base, id="gl%d:h" % k, method="HEAD"))
+    # entity headers whose values are not ASCII / not UTF-8 (HeaderValue allows any obs-text) and header names in several lines
+    for eh in ([("content-disposition", 'attachment; filename="caf\xe9.txt"')], [("x-a", "\xff\xfe"), ("x-a", "second"), ("x-b", "\xc3\xa9")], [("x-long", "v" * 300)]):
+        for rg in (None, "bytes=0-9", "bytes=0-1,5-6", "bytes=10-19, 900-, 0-4"):
+            for ir in (None, '"x"'):
+                hs = ([("range", rg)] if rg else []) + ([("if-range", ir)] if ir else [])
+                k += 1
+                base = {"headers": hs, "len": L, "etag": '"x"', "lm": "%d.0" % LM, "entity_headers": eh, "scripts": [], "extra_polls": 1}
+                out.append(dict(base, id="gl%d" % k, method="GET"))
+                out.append(dict(base, id="gl%d:h" % k, method="HEAD"))
     # If-Range values that merely contain / resemble the current strong tag (C05: only a byte-identical tag counts)
     for ir in ('"y", "x"', '"x", "y"', '"x" ', '"x",', '"x"\t', '"x"junk', '"x", W/"x"', '*', '"x\\"'):
         for rg in ("bytes=0-9", "bytes=0-1,5-6"):
@@ -1187,15 +1221,27 @@ def try_upgrade(pid, ob, repo=None):
         mk = _mk_line(test)
         lines = run_native(test, [mk(x) for x in scs], repo)
         hit = judge(pid, test, scs, lines)
+        profile = "debug"
+        if not hit and _some_panic(test, lines):
+            # a debug assertion / overflow check stopped some runs: what does the optimised build (assertions off) do there?
+            lines = run_native(test, [mk(x) for x in scs], repo, release=True)
+            hit = judge(pid, test, scs, lines)
+            profile = "release"
         if hit:
             sc, ln, why, paired = hit
-            ob["native_replay"] = {"status": "reproduced on the real code", "reproduced": True, "test": test, "scenario": sc, "scenario_line": mk(sc),
+            ob["native_replay"] = {"profile": profile, "status": "reproduced on the real code", "reproduced": True, "test": test, "scenario": sc, "scenario_line": mk(sc),
                                    "observation": ln, "violates": pid, "what": why, "searched": searched}
             if paired is not None:
                 ob["native_replay"]["paired_with"] = mk(paired)
                 ob["native_replay"]["paired_scenario"] = paired
             return
     ob["native_replay"] = {"status": "no failing input among %d scenarios" % searched, "reproduced": False, "searched": searched}
+
+
+def _some_panic(test, lines):
+    if test not in ("serve_witness", "stream_witness"):
+        return False
+    return any(not ln.rstrip().endswith("|-") for ln in lines if ln.strip())
 
 
 def _mk_line(test):
@@ -1334,9 +1380,14 @@ def fallback(pid, unit, repo=None):
         lines = run_native(test, [mk(x) for x in scs], repo)
         searched += len(scs)
         hit = judge(pid, test, scs, lines)
+        profile = "debug"
+        if not hit and _some_panic(test, lines):
+            lines = run_native(test, [mk(x) for x in scs], repo, release=True)
+            hit = judge(pid, test, scs, lines)
+            profile = "release"
         if hit:
             sc, ln, why, paired = hit
-            rec = {"status": "reproduced on the real code", "reproduced": True, "test": test, "scenario": sc, "scenario_line": mk(sc),
+            rec = {"profile": profile, "status": "reproduced on the real code", "reproduced": True, "test": test, "scenario": sc, "scenario_line": mk(sc),
                    "observation": ln, "violates": pid, "what": why, "searched": searched, "bounded": "witness family %s" % getattr(gen, "__name__", "family")}
             if paired is not None:
                 rec["paired_with"] = mk(paired)
@@ -1356,7 +1407,7 @@ def replay_file(path, repo=None):
         print("no concrete input recorded (no-failing-input-found); the obligation above is the violation")
         return 0
     batch = [nr["scenario_line"]] + ([nr["paired_with"]] if nr.get("paired_with") else [])
-    out = run_native(nr["test"], batch, repo)
+    out = run_native(nr["test"], batch, repo, release=(nr.get("profile") == "release"))
     ln = out[0]
     if nr["test"] == "dir_witness":
         why = (oracle_gz_sibling if nr["scenario"].get("kind") == "gz" else oracle_path)(rec["property"], nr["scenario"], ln.split("|", 1)[1])
